@@ -53,6 +53,7 @@ func init() {
 			{ID: "C02.3", Desc: "conditional request: validators copied onto a clone", Run: ruleC02_3, MinSites: 3},
 			{ID: "C02.4", Desc: "qualified no-cache fields stripped on every unvalidated return", Run: ruleC02_4, MinSites: 1},
 			{ID: "C02.5", Desc: "validation handler returns the stored response only for 304 (or stale-if-error)", Run: ruleC02_5, MinSites: 1},
+			{ID: "C02.6", Desc: "a positive request max-age caps the lifetime on every path", Run: func(c *Ctx) { ruleRequestMaxAgeCaps(c, "C02.6") }, MinSites: 1},
 		},
 	})
 }
